@@ -8,9 +8,9 @@ import checks.oracles as O
 
 
 def sel(T):
-    if T.name == 'seek-to-time':
+    if T.name in ('seek-to-time', 'grpc:Seek(time)'):
         return [O.c13_seek_time]
-    if T.name == 'seek-to-snapshot':
+    if T.name in ('seek-to-snapshot', 'grpc:Seek(snapshot)'):
         return [O.c13_seek_snapshot]
     if T.name == 'create-snapshot':
         return [O.c13_create_snapshot]
